@@ -65,5 +65,18 @@ def gen_unicode_c12():
     if changed != n:
         raise ValueError('upper-case run table: %d of %d single-character mappings lie inside the group intervals' % (changed, n))
     body += '/-- code points whose `.upper()` is not one character -/\ndef upperMultiC12 : List Nat := [%s]\n\n' % ', '.join(map(str, multi))
+    # the full (string-valued) images of those code points: what str.upper() really returns for them
+    full = [(cp, [ord(x) for x in chr(cp).upper()]) for cp in multi]
+    if any(len(im) < 2 for _, im in full):
+        raise ValueError('upperMultiC12: an image of length < 2')
+    body += ('/-- the code points of `upperMultiC12` with their `.upper()` (ß -> SS, ŉ -> ʼN, ﬁ -> FI ...) -/\n'
+             'def upperMultiMapC12 : List (Nat × List Nat) :=\n  [%s]\n\n' % ', '.join(
+                 '(%d, [%s])' % (cp, ', '.join(map(str, im))) for cp, im in full))
+    # str.upper() is context-free: check it on a sample of neighbourhoods so that the model (flatMap) is the right shape
+    for cp, im in full[:8]:
+        for ctx in ('a%sb', 'Σ%s', '%s%s', "'%s."):
+            w = ctx.replace('%s', chr(cp))
+            if w.upper() != ''.join(c.upper() for c in w):
+                raise ValueError('str.upper is not character by character on %r' % w)
     body += 'end Pybtex.Gen\n'
     return 'UnicodeC12.lean', body
